@@ -391,16 +391,16 @@ func init() {
 		Rule:        "(1) render: values injected as a global — random 64-bit ints and boundary ints, random finite float bit patterns, boundary floats (signed zero, subnormal, max, 1e20/1e21 threshold, 2^53, 2^63), scaled integers-as-floats, bools, strings with quotes/newlines/non-ASCII, functions, nested arrays of those — write(x) vs write(toa(x)) vs toa(x) vs the reference rendering, and aton(toa(n)) == n for every int and finite float; (2) gens: fromto(a,b) for a,b in -6..6, near 2^40 and with float bounds, elems/indices of arrays and strings of length 0..40, collected by a for loop and compared with a plain list and with the reference; (3) misuse: every built-in with 0..3 arguments drawn from 9 argument kinds (enumerated: " + fmt.Sprint(nMisuse) + " calls) must fail exactly when the contract says so, with a documented class; (4) read: inputs of 0..12 lines (some longer than 4 KiB) consumed by 0..n+2 read() calls in three syntactic positions must return successive lines and then a read error. (5) proc: the real binary runs write(read()) scripts with standard input from a pipe, a regular file, a FIFO fed in irregular chunks, and a regular file whose 1st..3rd read(2) fails with EIO injected by strace: whole successive lines, then the read error report, exit status 0, script continues. distinct by value / program text.",
 		Assumptions: []string{"float rendering is Go's shortest round-trip %v; NaN and infinities are outside 'finite float'", "standard input always ends with a newline (an unterminated last line is not covered by the contract)"},
 		Families: []core.Family{
-			{Name: "render", Count: countFn(30000, 3000000), Run: c17Render},
-			{Name: "gens", Count: countFn(3000, 300000), Run: c17Gens},
+			{Name: "render", Count: countFn(80000, 3000000), Run: c17Render},
+			{Name: "gens", Count: countFn(8000, 300000), Run: c17Gens},
 			{Name: "misuse", Count: func(t string) int { return tierN(t, nMisuse/3, nMisuse) }, Run: func(c *core.Ctx, idx int) core.Result {
 				if c.Tier != "thorough" {
 					idx *= 3
 				}
 				return c17Misuse(c, idx)
 			}},
-			{Name: "read", Count: countFn(3000, 300000), Run: c17Read},
-			{Name: "proc", Count: countFn(120, 3000), Run: c17Proc},
+			{Name: "read", Count: countFn(8000, 300000), Run: c17Read},
+			{Name: "proc", Count: countFn(240, 3000), Run: c17Proc},
 		},
 		Floors: []core.Floor{{Key: "render_checks", Quick: 25000, Thor: 2500000}, {Key: "aton_roundtrips", Quick: 10000, Thor: 1000000}, {Key: "generator_contract_checks", Quick: 2500, Thor: 250000}, {Key: "misuse_checks", Quick: 6000, Thor: 18000}, {Key: "lines_read", Quick: 8000, Thor: 800000}, {Key: "tag:gen:", Quick: 4, Thor: 4}, {Key: "process_runs", Quick: 80, Thor: 2000}, {Key: "tag:stdin:", Quick: 3, Thor: 3}},
 	})
